@@ -145,10 +145,10 @@ def compare(case, toks, impl):
                 else:
                     must, may = set(mons), None
                     d = pm.fields.get(F_DESTINATION)
-                    if pm.mtype in (METHOD_CALL, SIGNAL):
-                        for cc, nn in w.names.items():
-                            if nn == d and cc in w.live and cc not in w.monitors:
-                                must.add(cc)
+                    addr = s.split(":")[1] if ":" in s else "?"
+                    if pm.mtype in (METHOD_CALL, SIGNAL) and addr not in ("?", "-"):
+                        if int(addr) in w.live and int(addr) not in w.monitors:
+                            must.add(int(addr))                 # the addressee the model's registry resolves the ':' name to
                     if d is None and pm.mtype == SIGNAL and w.obs_ready and int(o[1:]) != 0:
                         must.add(0)
             else:
@@ -222,8 +222,9 @@ def oracle(case, impl):
     res, probe = impl[0], impl[1]
     viol, known = [], []
     written = {}        # serial -> (client, message, the name the bus had given that client) for messages that may be kept
+    eavesdroppers = set()   # clients that asked for an eavesdropping match rule
     st = {"forwarded_copies": 0, "bus_originated": 0, "forged_sender_dropped": 0, "unknown_fields_dropped": 0, "container_dropped": 0,
-          "names_issued": 0, "closed_by_bus": 0, "local_replies": 0, "monitor_copies": 0, "placeholder_copies": 0, "second_hello_refused": 0, "monitor_hello_copies": 0, "kept_then_released": 0, "start_failures_reported": 0,
+          "names_issued": 0, "closed_by_bus": 0, "local_replies": 0, "monitor_copies": 0, "placeholder_copies": 0, "second_hello_refused": 0, "monitor_hello_copies": 0, "kept_then_released": 0, "start_failures_reported": 0, "colon_name_requests": 0, "to_unique_name_delivered": 0,
           "copies_be": 0}
     names = {}          # live client -> unique name the implementation gave it (Hello reply)
     issued = []         # every name ever given out, in order
@@ -242,6 +243,26 @@ def oracle(case, impl):
             names.pop(c, None)
             monitors.discard(c)
         st["closed_by_bus"] += len(r["closed"])
+        if sent is not None and sent.fields.get(F_DESTINATION) == BUS and sent.mtype == METHOD_CALL and c in names and sent.body and isinstance(sent.body[0], str):
+            mem, arg = sent.fields.get(F_MEMBER), sent.body[0]
+            if mem == "AddMatch" and "eavesdrop" in arg:
+                eavesdroppers.add(c)
+            if arg.startswith(":") and mem in ("RequestName", "ReleaseName", "GetNameOwner", "ListQueuedOwners") and \
+                    sent.fields.get(F_INTERFACE, BUS) == BUS and sent.sig == ("su" if mem == "RequestName" else "s"):
+                holder = [cc for cc, nn in names.items() if nn == arg and cc not in monitors]
+                for hx in r["recv"].get(c, []):
+                    o = parse(hx)
+                    if o.fields.get(F_REPLY_SERIAL) != sent.serial or o.fields.get(F_SENDER) != BUS:
+                        continue
+                    st["colon_name_requests"] += 1
+                    if mem in ("RequestName", "ReleaseName") and o.mtype == METHOD_RETURN:
+                        viol.append((k, "%s(%s) by %s was not refused (reply %r): only Hello may make a connection an owner or queued owner of a name beginning with ':'" % (mem, arg, names[c], o.body)))
+                    if mem == "GetNameOwner" and o.mtype == METHOD_RETURN and (o.body[0] != arg or not holder):
+                        viol.append((k, "GetNameOwner(%s) = %r, but the connections Hello named so: %s" % (arg, o.body[0], holder)))
+                    if mem == "ListQueuedOwners" and o.mtype == METHOD_RETURN and (list(o.body[0]) != [arg] or not holder):
+                        viol.append((k, "ListQueuedOwners(%s) = %r, but the connections Hello named so: %s" % (arg, list(o.body[0]), holder)))
+                    if mem in ("GetNameOwner", "ListQueuedOwners") and o.mtype == ERROR and holder:
+                        viol.append((k, "%s(%s) fails although connection %s holds that name" % (mem, arg, holder)))
         if sent is not None and sent.fields.get(F_DESTINATION) in acts and c in names:
             written[sent.serial] = (c, sent, names[c])
         new_name = None
@@ -279,6 +300,12 @@ def oracle(case, impl):
                         continue
                     st["forwarded_copies"] += 1
                     st["copies_be"] += 0 if o.le else 1
+                    dd = o.fields.get(F_DESTINATION)
+                    if dd is not None and dd.startswith(":") and rcv not in monitors and rcv not in eavesdroppers:
+                        # addressed to a unique name: only the connection Hello gave that name to may get it
+                        st["to_unique_name_delivered"] += 1
+                        if names.get(rcv) != dd:
+                            viol.append((k, "a message addressed to %s was delivered to client %d, which Hello named %s: %r" % (dd, rcv, names.get(rcv), o)))
                     if rcv in monitors:
                         st["monitor_copies"] += 1
                     true_name = names.get(c)
